@@ -292,7 +292,7 @@ def _body(c, stats: Stats):
 
 
 def shard(stats: Stats, shard_i, nshards, seed, tier):
-    n = {'quick': 2000, 'thorough': 60000}[tier]
+    n = {'quick': 5000, 'thorough': 60000}[tier]   # quick raised from 2000: seeded C13-e was reported by 1 of 16 shards at VERIF_SEED=2
     common.run_given(stats, seed, n, cases(), body)
 
 
